@@ -3,14 +3,20 @@ NOTES = ("All checks are driven by /verif/check (python3, stdlib). Specification
          "/verif/harness (binary gv) and the goml CLI are rebuilt from /repo's working tree on every run with --cfg goml_verif. "
          "Exit 0 = held (KNOWN-FINDING lines for defects listed in known_findings.json), 1 = VIOLATION, 2 = tool error.")
 ENGINES = [
-    {"name": "tlc", "path": "/verif/spec", "serves_properties": ["C01", "C02", "C05", "C09", "C13", "C15"],
+    {"name": "tlc", "path": "/verif/spec", "serves_properties": ["C01", "C02", "C05", "C06", "C09", "C13", "C15"],
      "kind_free_text": "TLA+ specifications model-checked / simulated by TLC 1.8"},
-    {"name": "gv", "path": "/verif/harness", "serves_properties": ["C01", "C02", "C05", "C09", "C13", "C15"],
+    {"name": "gv", "path": "/verif/harness", "serves_properties": ["C01", "C02", "C05", "C06", "C09", "C13", "C15"],
      "kind_free_text": "Rust conformance harness with path dependencies on /repo/crates/*, and the goml CLI built from /repo"},
 ]
 PENDING = "check not built yet in this round (planned in DESIGN.md §4); not a claim that the technique cannot apply"
 NOT_APPLICABLE = {p: PENDING for p in ["C%02d" % i for i in range(1, 21)]}
 CHECKS = {
+    "C06": {
+        "level": "model_checking",
+        "technique": "MatchSem.tla (Matches/Binds/FirstMatch + matrix generator) checked and simulated by TLC; every generated matrix compiled by the real pipeline and its decision tree executed by GoSem.tla against FirstMatch's prediction for every scrutinee value",
+        "text": "MatchSem.tla defines first-match semantics over bool/int/string literals, tuples, a struct with permuted field patterns, plain and generic enums (depth 2) and generates matrices row by row; TLC checks FirstMatchIsFirst/WildcardLastIsTotal and emits each matrix with the expected arm and bindings for every value. Each matrix is compiled as a match in unit position, in value position (exhaustive ones) and as a destructuring let (irrefutable rows); GoSem.tla executes the emitted switch tree; printed arm index and bound sub-values must equal the prediction, values no row matches must fail exactly there; MatchSem and GomlSem must agree with each other (else tool error).",
+        "note": "Trusted: MatchSem.tla, GoSem.tla, renderer. Matrices <= 4 rows, depth 2, sampled by TLC simulation (260 quick / 6000 thorough); comparison is behavioural so a different correct heuristic raises no alarm.",
+    },
     "C01": {
         "level": "translation_validation",
         "technique": "two TLC-executed semantics: GomlSem.tla (source meaning) vs GoSem.tla run on the real compiler's emitted Go text; corpus re-compiled and executed against outputs recorded from real Go",
